@@ -405,6 +405,7 @@ func RunCheck(p *Program, cfg *CheckConfig, seed int) int {
 			assumptions = append(assumptions, "trusted contract (body not checked): "+k)
 		}
 	}
+	assumptions = append(assumptions, p.undischargedPreconditions(fns)...)
 	sort.Strings(fnNames)
 	ev := Evidence{PropertyID: cfg.Property, Tier: cfg.Tier, Seed: seed, Level: "proof", WallS: round3(time.Since(start).Seconds()), Violations: violations,
 		Assumptions: assumptions,
@@ -492,4 +493,66 @@ var StandingAssumptions = []string{
 	"termination is claimed only where a variant/measure obligation is listed",
 	"typed nil pointers are never stored in interface values (checked as nil:typed-nil-in-interface at producers inside swept functions, assumed at type assertions)",
 	"declared type invariants hold at call boundaries (assumed on entry for pointer parameters, re-proved at every exit of functions that write the type's fields)",
+}
+
+// undischargedPreconditions lists, for the functions checked in this run, every requires clause that is assumed on
+// entry but has a call site in the module at which it is not proved: the calling function carries no contract for
+// (any of) the clause's properties, so no obligation is generated there.  These are entry assumptions of the proof.
+func (p *Program) undischargedPreconditions(fns []*ssa.Function) []string {
+	want := map[*ssa.Function]bool{}
+	for _, fn := range fns {
+		if c := p.Contract(fn); c != nil && len(c.Requires) > 0 {
+			want[fn] = true
+		}
+	}
+	if len(want) == 0 {
+		return nil
+	}
+	callers := map[*ssa.Function]map[string]bool{}
+	for _, caller := range p.AllFuncs {
+		for _, b := range caller.Blocks {
+			for _, in := range b.Instrs {
+				ci, ok := in.(ssa.CallInstruction)
+				if !ok {
+					continue
+				}
+				if _, isB := ci.Common().Value.(*ssa.Builtin); isB {
+					continue
+				}
+				cs, _ := p.Callees(ci.Common())
+				for _, callee := range cs {
+					if !want[callee] {
+						continue
+					}
+					cc := p.Contract(caller)
+					for _, r := range p.Contract(callee).Requires {
+						props := r.Props
+						if len(props) == 0 {
+							ct := p.Contract(callee)
+							props = append(append([]string{}, ct.Props...), ct.Extra["sweep"]...)
+						}
+						proved := false
+						for _, pr := range props {
+							if cc != nil && !cc.Trusted && contractMentions(cc, pr) {
+								proved = true
+							}
+						}
+						if !proved {
+							if callers[callee] == nil {
+								callers[callee] = map[string]bool{}
+							}
+							callers[callee][caller.Name()] = true
+						}
+					}
+				}
+			}
+		}
+	}
+	var out []string
+	for _, fn := range fns {
+		if m := callers[fn]; len(m) > 0 {
+			out = append(out, "entry assumption: requires of "+FuncKey(fn)+" is not discharged at its call sites in "+strings.Join(sortedKeys(m), ", ")+" (callers not under contract for the clause's property)")
+		}
+	}
+	return out
 }
